@@ -834,7 +834,10 @@ LEVEL_TEXT = (
     "between _task and _input_block_id over all fusable classes, exhaustiveness of the symbolic conflict detector over the "
     "class hierarchy, and the derivation of inner block ids; plus a REF inventory (163 structural fingerprints) of every "
     "condition under which a rewrite hook, the fusability test or the conflict detector declines, so that a weakened "
-    "decline is reported at its hook. Value preservation by each fired rewrite (sentences 1-2) is not decided."
+    "decline is reported at its hook; plus structural necessary conditions of sentence 2 for the pushdown rewrites: sibling agreement on where/out at the "
+    "Elemwise rebuild sites, per-operand extent and grid checks in multi-operand pushdowns, recomputed layout literals, index-space typing "
+    "of the output/operand axis maps (sa/indexspace.py) and Reshape rebuilt through its door. Value preservation by each fired rewrite "
+    "in general (sentences 1-2) is not decided."
 )
 LEVEL_NOTE = "Trusted: CPython ast, class/MRO resolver, reviewed reference table. The helpers' arithmetic is assumed; a restructured guard needs the reference regenerated deliberately."
-TECHNIQUE = "static analysis: sibling-agreement/exhaustiveness over the class hierarchy + reference-guard fingerprints of rewrite declines (ast)"
+TECHNIQUE = "static analysis: sibling-agreement/exhaustiveness over the class hierarchy + reference-guard fingerprints of rewrite declines + def-use/guard-chain rules on rebuild sites + index-space (units) typing (ast)"
